@@ -139,6 +139,12 @@ def _join_geom(V):
         V.ensure("post/returns", z3.BoolVal(False))
         return
     V.ensure("post/returns", z3.BoolVal(True))
+    # A and B are left untouched: their coordinate arrays hold the numbers they held before the call (also the attachment-point rows,
+    # which the computation reads through views)
+    for nm, frag, c0 in (("A", A, ca), ("B", B, cb)):
+        now = frag.fields["_coords"]
+        V.ensure(f"frame/{nm}-keeps-its-coordinates", I.and_(tuple(now.tail) == (3, 3),
+                 *[Z(now.data[i][k]) == Z(c0[i][k]) for i in range(min(3, len(now.data))) for k in range(3)]))
     if any(e[0] == "np-division-by-zero" for e in st.trace):
         return
     rc = res.fields["_coords"].data
